@@ -1271,6 +1271,15 @@ class Emitter:
             return '((%s)0)' % self.ctype(e['type'])
         if ck == 'UserDefinedConversion':
             return self.expr1(inner)
+        if ck == 'IntegralCast':
+            # T(-k) with unsigned T: the wrapped constant (an intentional idiom such as std::size_t(-1))
+            si = self.strip(inner)
+            ct = self.ctype(e['type'])
+            if si['kind'] == 'UnaryOperator' and si.get('opcode') == '-' and self.strip(si['inner'][0])['kind'] == 'IntegerLiteral' \
+                    and ct in ('unsigned long', 'unsigned int', 'unsigned long long'):
+                bits = 32 if ct == 'unsigned int' else 64
+                v = (-int(self.strip(si['inner'][0])['value'])) % (1 << bits)
+                return '%d%s' % (v, 'u' if bits == 32 else 'ul')
         if ck in ('BitCast', 'IntegralCast', 'PointerToIntegral', 'IntegralToPointer', 'IntegralToFloating',
                   'FloatingToIntegral', 'FloatingCast'):
             return '((%s)%s)' % (self.ctype(e['type']), self.sub(inner))
